@@ -85,8 +85,9 @@ MANIFEST = {'note': 'Trusted: Lean 4.33 kernel (axioms propext, Classical.choice
          'their left-to-right order, so the left-most crossing is on an edge at the least vertex and '
          '(2L-1) cross(prev, pivot, next) > 0); pivotOnce_of_simple (the merged ring satisfies PivotOnce), '
          'windingOrder_reverse_simple, windingOrder_rotate_simple (any number of steps), orient_post_simple, '
-         'orient_idem_simple and orient_exact_simple (orient returns the exterior with exactly the requested winding '
-         'and every hole with the opposite one) - the _partial statements with PivotOnce discharged on the '
+         'orient_idem_simple, orient_exact_simple (orient returns the exterior with exactly the requested winding '
+         'and every hole with the opposite one) and polygonArea_pos_iff_ccw (signed_area > 0 iff the simple exterior '
+         'is counter-clockwise, < 0 iff clockwise, when the holes do not outweigh it) - the _partial statements with PivotOnce discharged on the '
          'property\'s domain. Rounding: '
          'under the standard model fl(x) = x(1+d), |d| <= u, for an arbitrary rounding function applied after '
          'every operation of twice_signed_ring_area, |computed - exact| <= ((1+u)^(n+3) - 1) * sum over edges '
